@@ -851,3 +851,95 @@ pub fn batch_open_cross_trim(
     }
     Ok(ps)
 }
+
+// ------------------------------------------------------------------------------------------------
+// linear combinations (`open_combinations` / `check_combinations`, driver ops `ipa.*_combinations`)
+// ------------------------------------------------------------------------------------------------
+
+pub fn lcs_args(r: Req, lcs: &[ark_poly_commit::LinearCombination<Fr>]) -> Req {
+    use ark_poly_commit::LCTerm;
+    r.arg("lclabels", Val::L(lcs.iter().map(|l| wire::label(l.label())).collect()))
+        .arg("lccoeffs", Val::L(lcs.iter().map(|l| wire::fes(&l.iter().map(|t| t.0).collect::<Vec<_>>())).collect()))
+        .arg("lcone", Val::L(lcs.iter().map(|l| Val::L(l.iter().map(|t| wire::nat(t.1.is_one() as usize)).collect())).collect()))
+        .arg(
+            "lcterms",
+            Val::L(lcs.iter().map(|l| Val::L(l.iter().map(|t| match &t.1 { LCTerm::One => wire::label(""), LCTerm::PolyLabel(s) => wire::label(s) }).collect())).collect()),
+        )
+}
+
+/// the combinations as labelled polynomials / commitments / states in scalar form, derived
+/// independently of the library (labels resolve to their LAST occurrence, constants are skipped, a
+/// single bounded term keeps its bound and shifted parts).  `None` when a label is unknown.
+pub struct LcScalars {
+    pub polys: Vec<LP>,
+    pub cs: Vec<CommS>,
+    pub rands: Vec<Rand>,
+}
+
+pub fn lc_scalars(polys: &[LP], cs: &[CommS], rands: &[Rand], lcs: &[ark_poly_commit::LinearCombination<Fr>]) -> Option<LcScalars> {
+    use ark_poly_commit::LCTerm;
+    let mut out = LcScalars { polys: vec![], cs: vec![], rands: vec![] };
+    for lc in lcs {
+        let mut poly = UniPoly::from_coefficients_vec(vec![]);
+        let (mut c, mut s, mut rand, mut srand) = (Fr::zero(), None, Fr::zero(), None);
+        let (mut bound, mut hb): (Option<usize>, Option<usize>) = (None, None);
+        let single = lc.len() == 1;
+        for (coeff, t) in lc.iter() {
+            let l = match t {
+                LCTerm::One => continue,
+                LCTerm::PolyLabel(l) => l,
+            };
+            let i = polys.iter().rposition(|p| p.label() == l)?;
+            if polys[i].degree_bound().is_some() {
+                if !single || !coeff.is_one() {
+                    return None;
+                }
+                bound = polys[i].degree_bound();
+            }
+            hb = hb.max(polys[i].hiding_bound());
+            poly = &poly + &(polys[i].polynomial() * *coeff);
+            c += cs[i].c * coeff;
+            if let Some(x) = cs[i].s {
+                s = Some(s.unwrap_or(Fr::zero()) + x * coeff);
+            }
+            rand += rands[i].rand * coeff;
+            if let Some(x) = rands[i].shifted_rand {
+                srand = Some(srand.unwrap_or(Fr::zero()) + x * coeff);
+            }
+        }
+        out.polys.push(LabeledPolynomial::new(lc.label().clone(), poly, bound, hb));
+        out.cs.push(CommS { label: lc.label().clone(), c, s, bound });
+        out.rands.push(Randomness { rand, shifted_rand: srand });
+    }
+    Some(out)
+}
+
+/// the trait-default `batch_open` in scalar form: one `scalar_open` per point label in sorted order on
+/// one stream of challenges / oracle outputs / draws.  Returns the proofs and the numbers used.
+pub fn scalar_batch(
+    t: &Trap,
+    s: usize,
+    polys: &[LP],
+    cs: &[CommS],
+    rands: &[Rand],
+    qs: &QuerySet<Fr>,
+    xis: &[Fr],
+    ros: &[Fr],
+    draws: &[Fr],
+) -> Option<(Vec<ProofS>, usize, usize, usize)> {
+    let groups = crate::generic::group(qs);
+    let (mut kx, mut kr, mut kd) = (0usize, 0usize, 0usize);
+    let mut ps = vec![];
+    for (_, pt, labels) in &groups {
+        let idx: Vec<usize> = labels.iter().map(|l| polys.iter().rposition(|p| p.label() == l)).collect::<Option<Vec<_>>>()?;
+        let pp: Vec<&LP> = idx.iter().map(|&i| &polys[i]).collect();
+        let rr: Vec<&Rand> = idx.iter().map(|&i| &rands[i]).collect();
+        let cc: Vec<&CommS> = idx.iter().map(|&i| &cs[i]).collect();
+        let (p, ux, ur, ud) = scalar_open(t, s, &pp, &cc, &rr, *pt, xis.get(kx..)?, ros.get(kr..)?, draws.get(kd..)?)?;
+        kx += ux;
+        kr += ur;
+        kd += ud;
+        ps.push(p);
+    }
+    Some((ps, kx, kr, kd))
+}
